@@ -70,6 +70,11 @@ def main():
         if not axioms:
             discharged = 0
     res.proof_problems = problems
+    lc = None
+    if tier == 'thorough' and lean_failure is None and not args.replay:
+        lc = common.leanchecker(prop)
+        if not lc.get('ok'):
+            problems.append('leanchecker rejects a compiled module: %s' % lc.get('detail', '')[-600:])
 
     try:
         mod = importlib.import_module('corr_' + prop)
@@ -127,7 +132,7 @@ def main():
         exit_code = 1
     res.violations = [v for v in res.violations if not any(k.get('case_key') == v.get('case_key') for k in known)]
     common.write_evidence(res, max(obligations, 1) if obligations else 0, discharged,
-                          extra={'proof_problems': problems, 'known_findings_seen': sorted(seen_known)})
+                          extra={'proof_problems': problems, 'known_findings_seen': sorted(seen_known), 'leanchecker': lc})
     for l in out_lines:
         print(l)
     print('%s tier=%s seed=%d evaluations=%d nontrivial=%d theorems=%d/%d wall=%.1fs -> %s' % (
